@@ -344,7 +344,41 @@ def rule_companion_identity(ck):
     ck.ob("table.companion_identity", "from_dqe/stores-registry-number", ok, "", w.loc())
 
 
+def rule_activation_identity(ck):
+    """a scoped watchpoint belongs to one activation of one thread, not to a function"""
+    prog = ck.prog
+    ck.rule("kind.activation_identity", "a watchpoint on a local belongs to one activation: what identifies its frame must contain a stack address (the CFA), not only the function's start address — recursion and other threads run the same function; the end-of-scope handler removes a watchpoint only after comparing the activation (frame address and thread) that reached the scope end with the one the watchpoint was created in")
+    W = "debugger::watchpoint::Watchpoint"
+    f = ck.anchor(W + "::from_dqe")
+    aggs = [(i, rv) for i, j, pl, rv, sp in f.assigns() if rv["r"] == "agg" and rv["name"].endswith("watchpoint::ExpressionTarget")]
+    if ck.ob("kind.activation_identity", "from_dqe/one-target", len(aggs) == 1, f"{len(aggs)} ExpressionTarget constructions", f.loc()):
+        i, rv = aggs[0]
+        flds = dict(zip(rv.get("fields", []), rv["ops"]))
+        idents = {k: expr_str(expr_of(f, v, depth=12), 12) for k, v in flds.items() if "frame" in k or "cfa" in k}
+        has_stack = any("cfa" in k or "get_cfa" in t or "current_cfa" in t or ".cfa" in t for k, t in idents.items())
+        only_fn = any("fn_start_ip" in t or "FrameSpan::id" in t for t in idents.values())
+        ck.ob("kind.activation_identity", "from_dqe/frame-identity-contains-a-stack-address", has_stack, f"frame identity fields: { {k: t[:70] for k, t in idents.items()} }" + ("; the function's first instruction is the same for every activation" if only_fn and not has_stack else ""), f.loc(i), what="a watchpoint on a local is tied to its function, not to the activation that owns the variable")
+    h = [x for p_, x in prog.fns.items() if p_.endswith("::execute_on_watchpoint_hook")]
+    if ck.ob("kind.activation_identity", "execute_on_watchpoint_hook/exists", len(h) == 1, "", ""):
+        g = h[0]
+        ck.saw(g)
+        sws = switches_on_type(g, "debugger::debugee::tracer::WatchpointHitType")
+        ok = False
+        d = "no match on WatchpointHitType"
+        if sws:
+            bi, t, pl = sws[0]
+            arm = switch_arm_map(prog, "debugger::debugee::tracer::WatchpointHitType", t)
+            region = g.arm_region(bi, arm["EndOfScope"]) | {arm["EndOfScope"]}
+            names = [g.call_at(b).name for b in region if g.call_at(b) is not None]
+            removes = [n for n in names if n.endswith("remove_watchpoint_by_number")]
+            frame_facts = [n for n in names if n.endswith(("::get_cfa", "::current_cfa", "Debugger::backtrace", "Debugee::unwind"))]
+            ok = bool(removes) and bool(frame_facts)
+            d = f"{len(removes)} removal(s), frame facts consulted: {[n.split('::')[-1] for n in frame_facts]}"
+        ck.ob("kind.activation_identity", "end_of_scope/removal-checks-activation", ok, d, g.loc(), what="the scope end reached by a deeper activation (recursion) or by another thread removes the watchpoint while the watched variable is still live")
+
+
 def run(ck):
+    rule_activation_identity(ck)
     rule_companion_identity(ck)
     rule_bits(ck)
     rule_slot(ck)
